@@ -454,3 +454,30 @@ SOUP = ["<A>", "</A>", "<B>", "</B>", "<C1>", "</C1>", CDO, CDC, "]]", "]", ">",
 
 def soup(rng, n):
     return "".join(rng.choice(SOUP) for _ in range(n))
+
+
+# ------------------------------------------------------------------------------------------------ violation buffer
+class ViolationBuffer:
+    """Collects oracle violations per tag, counts all of them, keeps full records of at most `cap` per tag and hands them to
+    the framework smallest document first — so the replay written for a tag is the smallest failing case met."""
+
+    def __init__(self, ctx, cap=200):
+        self.ctx, self.cap = ctx, cap
+        self.recs = {}
+
+    def add(self, tag, case, what, detail):
+        self.ctx.stat("oracle:" + tag)
+        lst = self.recs.setdefault(tag, [])
+        key = len(case["doc"])
+        if len(lst) < self.cap:
+            lst.append((key, case, what, detail))
+        else:
+            # replace the largest record if this one is smaller
+            j = max(range(len(lst)), key=lambda i: lst[i][0])
+            if key < lst[j][0]:
+                lst[j] = (key, case, what, detail)
+
+    def emit(self):
+        for tag, lst in self.recs.items():
+            for _k, case, what, detail in sorted(lst, key=lambda r: (r[0], r[1]["doc"])):
+                self.ctx.violate(tag, case, what, detail)
